@@ -273,6 +273,16 @@ func Main(t *testing.T, scenarios map[string]RunFunc) {
 			}
 		}
 		if v := firstUnknown(job.Known, res); v != nil {
+			// checkpoint: the unminimised violation is on disk before any further
+			// run happens in this process (code under test that keeps process-wide
+			// state across runs can take the whole worker down while shrinking;
+			// the driver verifies the replay in a fresh process either way)
+			out.Violations = append(out.Violations, ReplayFile{Property: job.Property, Scenario: job.Scenario, Tier: job.Tier, Seed: seed,
+				Tape: tape.Values(), Class: v.Class, Detail: v.Detail + " (not minimised: the worker ended while shrinking)", LogHash: fmt.Sprintf("%016x", res.LogHash),
+				Sample: res.Sample, OrigLen: len(tape.Values()), Params: job.Params})
+			out.WallSeconds = time.Since(start).Seconds()
+			writeOut(&job, out)
+			out.Violations = out.Violations[:len(out.Violations)-1]
 			rf := shrink(t, fn, &job, opts, seed, tape.Values(), *v)
 			out.Violations = append(out.Violations, rf)
 			if len(out.Violations) >= 2 {
